@@ -272,7 +272,34 @@ func (n *RNode) Apply(db, proto int, cmd []string) Result {
 
 // Cluster: node 0 bootstraps (leader), node 1 forwards, node 2 does not forward.
 type Cluster struct {
-	Nodes []*RNode
+	Nodes   []*RNode
+	markers int
+}
+
+// BarrierDb holds the marker key of Barrier.
+const BarrierDb = 15
+
+// Barrier writes a marker through the leader and waits until every node's store shows it. Raft's
+// AppliedIndex runs ahead of the state machine on followers (entries are handed to the FSM goroutine
+// asynchronously); the state machine applies in log order, so a node that shows the marker has applied
+// everything before it. Returns the marker command and the leader's reply (the marker is part of the
+// batch the transcript reports).
+func (c *Cluster) Barrier(d time.Duration) ([]string, Result, bool) {
+	c.markers++
+	val := fmt.Sprintf("b%d", c.markers)
+	cmd := []string{"set", "__barrier", val}
+	res, _ := c.Leader().Exec(BarrierDb, cmd)
+	ok := waitFor(d, func() bool {
+		for _, n := range c.Nodes {
+			raw := n.S.VerifSnapshot()
+			kd, found := raw.Store[BarrierDb]["__barrier"]
+			if !found || fmt.Sprint(kd.Value) != val {
+				return false
+			}
+		}
+		return true
+	})
+	return cmd, res, ok
 }
 
 func NewCluster(clocks []int64) (*Cluster, error) {
